@@ -32,7 +32,7 @@ mod search;
 mod tree;
 
 fn rt() -> tokio::runtime::Runtime {
-    tokio::runtime::Builder::new_current_thread().build().unwrap()
+    tokio::runtime::Builder::new_current_thread().enable_all().build().unwrap()
 }
 
 fn hex(b: &[u8]) -> String {
